@@ -79,6 +79,14 @@ pub fn run(op: &str, t: &[&str], v: &[Val], out: &mut Out) -> bool {
             out.named("is_one", || a.is_one());
             out.named("set_zero", || { let mut x = a.clone(); x.set_zero(); x });
             out.named("set_one", || { let mut x = a.clone(); x.set_one(); x });
+            // the same on an object whose buffer is much longer than the value (stale capacity)
+            out.named("neg_vs", || -slack_i(a));
+            out.named("abs_s", || slack_i(a).abs());
+            out.named("parts_s", || slack_i(a).into_parts());
+            out.named("set_zero_s", || { let mut x = slack_i(a); x.set_zero(); x });
+            out.named("set_one_s", || { let mut x = slack_i(a); x.set_one(); x });
+            out.named("is_zero_s", || slack_i(a).is_zero());
+            out.named("is_one_s", || slack_i(a).is_one());
         }
         "usigns" => {
             let a = v[1].u();
@@ -89,6 +97,10 @@ pub fn run(op: &str, t: &[&str], v: &[Val], out: &mut Out) -> bool {
             out.named("is_one", || a.is_one());
             out.named("set_zero", || { let mut x = a.clone(); x.set_zero(); x });
             out.named("set_one", || { let mut x = a.clone(); x.set_one(); x });
+            out.named("set_zero_s", || { let mut x = slack_u(a); x.set_zero(); x });
+            out.named("set_one_s", || { let mut x = slack_u(a); x.set_one(); x });
+            out.named("is_zero_s", || slack_u(a).is_zero());
+            out.named("is_one_s", || slack_u(a).is_one());
         }
         "abssub" => {
             let (a, b) = (v[1].i(), v[2].i());
